@@ -27,7 +27,7 @@ NATIVE_TYPES = {"default": (), "orjson": (dt.datetime, dt.date, dt.time, uuid.UU
 
 def bounds(tier):
     return dict(tier=tier, schemas=len(space.schemas(tier)), dialects=list(FORMATS),
-                entry_points=["codec", "mixin", "nested", "format-mixin identity encoder"],
+                entry_points=["codec", "mixin", "nested", "format-mixin identity encoder", "format-mixin class's plain to_dict"],
                 full_alphabet_depth=1 if tier == "quick" else 2, representative_depth=3 if tier == "quick" else 4)
 
 
@@ -68,7 +68,8 @@ def _format_mixin_encoder(fmt, h, ctx):
         call = lambda o: o.to_toml(encoder=lambda d: d)   # noqa: E731
     ctx.ns["_FB"] = B
     W = ctx.execute(n, f"@dataclass\nclass {n}(_FB):\n    x: {hn}\n")
-    return lambda v: call(W(v)).get("x")
+    # ... and the same class's plain to_dict(), which must stay the DEFAULT basic form whatever the format method compiled
+    return (lambda v: call(W(v)).get("x")), (lambda v: W(v).to_dict().get("x"))
 
 
 def _only_extra_null_keys(got, exp):
@@ -175,7 +176,10 @@ def run_case(unit):
                 V("build-failed", e1.exc_class(r[1]), ep, -1, repr(r[1]))
                 res.cases += 1
                 continue
-            encs[ep] = r[1] if ep == "fmixin" else r[1].encode
+            if ep == "fmixin":
+                encs["fmixin"], encs["fmixin_to_dict"] = r[1]
+            else:
+                encs[ep] = r[1].encode
         if fmt != "default" and d[0] in ("dc", "dcgeninh", "dcinh", "dcself", "dcselft", "dcfwd") and (d[0] != "dc" or d[1] != "plain"):
             # (an instance of an unspecialised generic class has no type arguments of its own: dcgen is left out)
             # the class itself built on the format mixin: its own to_<format>(encoder=identity)
@@ -188,6 +192,20 @@ def run_case(unit):
                 continue
             for ep, enc in encs.items():
                 res.cases += 1
+                if ep == "fmixin_to_dict":
+                    try:
+                        exp_d = ref.encode(d, v, ctx, ref.opts())
+                    except ref.Reject:
+                        continue
+                    r1 = e1.outcome(enc, v)
+                    res.transitions += 1
+                    if r1[0] == "exc" or not ref.same(r1[1], exp_d):
+                        res.violation(f"ref-encode-neq|{space.show(d)}|{fmt}|{ep}|neq", "ref-encode-neq", "neq",
+                                      dict(desc=d, format=fmt, entry=ep, value_index=idx, facts={}),
+                                      f"plain to_dict() of a class built on the {fmt} mixin: value={v!r:.200} expected={exp_d!r:.200} got={r1[1]!r:.200}")
+                    else:
+                        res.outcomes["ok"] += 1
+                    continue
                 r1 = e1.outcome(enc, v)
                 res.transitions += 1
                 if r1[0] == "exc":
